@@ -18,7 +18,8 @@ RULE = ('a case = (NaN mask, container kind in {Series, 1-d array, DataFrame, 2-
         'or an all-NaN row in a frame with a partly-NaN row; distinct = canonical hash')
 ASSUMPTIONS = ['axis is not part of the statement and is not varied', 'numeric constants are combined with limit=None only (pandas counts the limit differently for value fills)',
                "an all-NaN column is left unchanged by ffill_na / ffill_0 (no 'last valid observation' exists)", "method lists containing ffill_na / ffill_0 are applied to 1-d inputs only",
-               "the deprecated alias 'pad' is not exercised"]
+               "the deprecated alias 'pad' is not exercised",
+               "in method lists no step that fills the tail (ffill, a constant) precedes ffill_na / ffill_0: whether 'the last valid observation' is then that of the input or of the intermediate result is not settled by the statement (the library uses the input's)"]
 NAN = float('nan')
 T0 = datetime.datetime(2020, 1, 1)
 
@@ -193,7 +194,8 @@ def run_case(case, ctx):
 
 
 SINGLE = ['ffill', 'bfill', 0.0, 7.5, 'nona', 'fnna', 'ffill_na', 'ffill_0']
-LISTS = [['fnna', 'ffill_na'], ['nona', 'ffill_0'], ['fnna', 'ffill_0'], ['nona', 'ffill_na'], ['ffill', 'ffill'], ['bfill', 'bfill'], ['ffill', 'bfill', 'bfill'], ['ffill', 'ffill', 'ffill'], ['ffill', 'bfill'], ['bfill', 'ffill'], ['ffill', 0.0], ['fnna', 'ffill'], ['nona'], ['ffill', 'nona'], ['ffill_na', 'bfill'], ['bfill', 0.0], ['fnna', 'bfill', 'ffill']]
+LISTS = [['fnna', 'ffill_na'], ['nona', 'ffill_0'], ['fnna', 'ffill_0'], ['nona', 'ffill_na'], ['ffill', 'ffill'], ['bfill', 'bfill'], ['ffill', 'bfill', 'bfill'], ['ffill', 'ffill', 'ffill'], ['ffill', 'bfill'], ['bfill', 'ffill'], ['ffill', 0.0], ['fnna', 'ffill'], ['nona'], ['ffill', 'nona'], ['ffill_na', 'bfill'], ['bfill', 0.0], ['fnna', 'bfill', 'ffill'],
+         ['ffill_0', 0.0], ['ffill_na', 7.5], ['ffill_0', 7.5], ['ffill_na', 0.0, 'ffill'], ['ffill_na', 0.0], ['bfill', 'ffill_0', 7.5]]
 
 
 def mask_cols(mask, base=1):
